@@ -33,7 +33,7 @@ def run(ctx):
     rng = ctx.rng
     ctx.rule = ("real fits with precomputed_knn tables of k, k+1, 2k columns x force_approximation_algorithm in {F,T} x 2-/3-tuples "
                 "x n in {80,300} (thorough: + one n>=4096): graph vs first-k-columns fit (exact) and vs UMAP's own exact fit (abs 1e-5); "
-                "too-few-columns / wrong-row-count tables vs ordinary fit; the live decision table over the abstraction grid is "
+                "too-few-columns / wrong-row-count tables vs ordinary fit (also on an estimator previously fitted with a usable table); the live decision table over the abstraction grid is "
                 "regenerated into Lean and proved equal to the model; non-trivial = table has extra columns or is rejected")
     ctx.assumptions += ["NN-descent is not exercised: tables are exact", "graph of own exact fit compared at abs 1e-5 (distance rounding sklearn vs harness)"]
     ncfg = 24 if ctx.thorough else 8
@@ -101,6 +101,23 @@ def run(ctx):
             if d3 != 0.0:
                 ctx.violation("rejected-ordinary", f"{bad_kind}: graph differs from an ordinary fit by {d3} at {at3}", dict(case, bad=bad_kind))
             ctx.case(key=hash(str(case["X"])) ^ hash(bad_kind), nontrivial=True, rejected=bad_kind)
+            # the same, on an estimator that has already been fitted with a usable table (nothing of that fit may stick to it)
+            X2 = X[:-3]
+            try:
+                with warnings.catch_warnings(record=True) as w2:
+                    warnings.simplefilter("always")
+                    est = umap.UMAP(precomputed_knn=(idx.copy(), dist.copy()), force_approximation_algorithm=force, **kw)
+                    est.fit(X)
+                    g_re = est.fit(X2).graph_                      # the table now has the wrong number of rows
+                    g_or = umap.UMAP(force_approximation_algorithm=force, **kw).fit(X2).graph_
+            except Exception as e:  # noqa
+                ctx.violation("rejected-exception", f"refit with a table of the wrong size raised {type(e).__name__}: {e}", dict(case, bad="reused-estimator"))
+                continue
+            d4, at4 = graph_diff(g_re, g_or)
+            if d4 != 0.0:
+                ctx.violation("rejected-ordinary", f"estimator fitted with a usable table, then refitted on data of another size (table ignored): graph differs "
+                                                   f"from an ordinary fit by {d4} at {at4}", dict(case, bad="reused-estimator"), key="C20:force-flag-sticks-to-estimator")
+            ctx.case(key=hash(str(case["X"])) ^ hash("reused"), nontrivial=True, rejected="reused-estimator")
 
     if ctx.thorough:
         n, k = 4200, 5
